@@ -2,12 +2,12 @@
 
 PROP = dict(
     level="proof",
-    lean_modules=['PopsModel.Props.C03', 'PopsModel.Props.NonVacuous.Host', 'PopsModel.Props.RunModel'],
-    theorems=['Pops.C03_totals_step', 'Pops.C03_totals_move', 'Pops.C03_cohorts_step_partial', 'Pops.C03_cohorts_full_fails', 'Pops.C03_mortality_never_fails', 'Pops.C03_cohorts_move', 'Pops.C02_C03_run'],
+    lean_modules=['PopsModel.Props.C03', 'PopsModel.Props.NonVacuous.Host', 'PopsModel.Props.RunModel', 'PopsModel.Props.C03Cohorts'],
+    theorems=['Pops.C03_totals_step', 'Pops.C03_totals_move', 'Pops.C03_cohorts_step_partial', 'Pops.C03_cohorts_full_fails', 'Pops.C03_mortality_never_fails', 'Pops.C03_cohorts_move', 'Pops.C02_C03_run', 'Pops.C03_cohorts_history', 'Pops.C03_cohorts_history_no_ratio_treatments', 'Pops.C03_cohorts_generators', 'Pops.C03_cohorts_model_step', 'Pops.C03_cohorts_run', 'Pops.C03_mortality_never_fails_along_history', 'Pops.C03_mortality_never_fails_along_run', 'Pops.C03_run_never_runtime_error', 'Pops.C03_history_never_runtime_error', 'Pops.C03_rounding_needed_for_mortality'],
     commands=[],
     runs={
-        "quick": [('h_host', 'pool', 0, 1500), ('h_host', 'treat', 0, 400), ('h_model', 'model', 0, 400), ('h_mmodel', 'multi', 0, 150), ('h_sim', 'sim', 0, 150)],
-        "thorough": [('h_host', 'pool', 0, 150000), ('h_host', 'treat', 0, 40000), ('h_model', 'model', 0, 20000), ('h_mmodel', 'multi', 0, 5000), ('h_sim', 'sim', 0, 5000)],
+        "quick": [('h_host', 'pool', 0, 1500), ('h_host', 'treat', 0, 400), ('h_model', 'model', 0, 400), ('h_mmodel', 'multi', 0, 150), ('h_sim', 'sim', 0, 150), ('h_multi', 'pool', 0, 300)],
+        "thorough": [('h_host', 'pool', 0, 150000), ('h_host', 'treat', 0, 40000), ('h_model', 'model', 0, 20000), ('h_mmodel', 'multi', 0, 5000), ('h_sim', 'sim', 0, 5000), ('h_multi', 'pool', 0, 20000)],
     },
     exhaustive={"quick": False, "thorough": False},
     rule="case (pool) = one random landscape (7 shapes incl. 1x1, 1xN, Nx1, rows != cols; SI/SEI, latency 0..3, 1..4 mortality cohorts, 20% empty cells) with 5-14 random operations (add/land a disperser with scripted uniform, deterministic generation, pests from/to, host move incl. same-cell, removal/pesticide treatment in both modes with coefficients k/64, pesticide end, survival rate, lethal temperature, mortality, latency step); case (model) = one random Model configuration (feature subsets, calendar with day/week/month steps, both entry points, injected kernel throwing dispersers inside / at the source / just outside / far outside) run for up to 40 steps with the state printed after every action; non-trivial = at least 3 different operation kinds on a landscape with a suitable cell (pool) / at least 3 steps (model); distinct = blake2b of the case's protocol lines",
